@@ -46,10 +46,10 @@ def tree_hash():
 
 
 def export_all(sd_base, wd, tier, timeout, only=None):
-    """Design-level exploration + schedule export: the configurations are split round-robin over SHARDS TLC processes
+    """Design-level exploration + schedule export: the configurations are split round-robin over SHARDS (default 8) TLC processes
     (1 worker each, BFS - the coverage registers need a single worker); a schedule's coverage key contains its
     configuration name, so the union of the shards' exports equals the export of one run over all configurations."""
-    nshard = int(os.environ.get("VERIF_SHARDS", "6"))
+    nshard = int(os.environ.get("VERIF_SHARDS", "8"))
 
     def one(i):
         sd = os.path.join(wd, "mc%d" % i)
